@@ -7,7 +7,7 @@ WHATS = {"lost-wakeup", "lost-wakeup-queue", "mapped-change-not-propagated", "re
 
 def run(ctx):
     quick = ctx.tier == "quick"
-    rtlib.model_check(ctx, ["A", "B", "F"] if quick else rtlib.MC_CFGS)
+    rtlib.model_check(ctx, ["A", "B", "F", "N"] if quick else rtlib.MC_CFGS)
     behs, out = rtlib.drive(ctx, ["A", "B", "C", "D", "E", "F"], 180 if quick else 3000, 70 if quick else 110)
     recs, traces, bad = rtlib.judge(ctx, behs, out, WHATS, "C05")
     rtlib.selftest(ctx, traces, bad)
